@@ -77,6 +77,9 @@ class Ledger:
         return out
 
     def known_true(self, node, want):
+        return self.known_value(node, want) is True
+
+    def known_value(self, node, want):
         """is the (positive) test text `want` known to hold at `node`?  From the tests of the enclosing ifs / and-chains and
         from earlier `if T: raise / return` statements of the enclosing blocks (after them T is false): literals are compared
         in positive form (`x not in y` = not `x in y`), a negated conjunction is a clause and is resolved by unit propagation."""
@@ -100,6 +103,15 @@ class Ledger:
             if isinstance(test, ast.BoolOp):
                 # a false conjunction / a true disjunction: at least one operand has the required value
                 clauses.append([lit(v, truth) for v in test.values if not isinstance(v, ast.BoolOp)])
+                return
+            if isinstance(test, ast.Compare) and len(test.ops) == 1 and isinstance(test.ops[0], (ast.Is, ast.IsNot)) \
+                    and isinstance(test.left, ast.IfExp) and isinstance(test.comparators[0], ast.Constant):
+                # (X if c else Y) is K: under c it speaks about X, else about Y
+                ie = test.left
+                for arm, cval in ((ie.body, True), (ie.orelse, False)):
+                    t_arm, b_arm = lit(ast.Compare(left=arm, ops=test.ops, comparators=test.comparators), truth)
+                    tc, bc = lit(ie.test, not cval)
+                    clauses.append([(tc, bc), (t_arm, b_arm)])
                 return
             t, b = lit(test, truth)
             units[t] = b
@@ -128,7 +140,7 @@ class Ledger:
                 if len(open_) == 1:
                     units[open_[0][0]] = open_[0][1]
                     changed = True
-        return units.get(want) is True
+        return units.get(want)
 
     # ------------------------------------------------------------------ discharge rules
     def discharge(self, s: Site):
@@ -350,7 +362,7 @@ class Ledger:
                 return ("callsites", "every call site passes exactly one of command / authorizationArea") if ok else None
             if s.kind == "idiom:iterate-optional":
                 v = s.detail
-                if any(norm(t) == f"{v} is None" for t, _ in self.prior_returns(n)):
+                if any(norm(t) == f"{v} is None" for t, _ in self.prior_returns(n)) or self.known_value(n, f"{v} is None") is False:
                     return "guarded", f"an earlier `if {v} is None: return` guards the iteration"
                 if self.mode == "strict":
                     return "mode", ("strict mode: the session area is a decode result, which is None only on warn-mode recovery returns; "
